@@ -11,9 +11,11 @@ for f in os.listdir(src):
     if f not in ("patch.diff", "demo.py", "meta.json") and os.path.isfile(os.path.join(src, f)) and os.path.getsize(os.path.join(src, f)) < 200000:
         shutil.copy(os.path.join(src, f), os.path.join(dst, f))
 m = json.load(open(os.path.join(dst, "meta.json")))
-m["round"] = 2
+import re as _re
+_m = _re.search(r"/wt(\d+)-", wt)
+m["round"] = int(_m.group(1)) if _m else 1
 m["verification"] = {"breaks": pid, "demo": "exit 0 unchanged / exit 1 changed (confirmed)", "suite": suite,
                      "check": verdict, "caught_by": [c for c in caught.split(";") if c]}
-m["confirmed_in"] = "scratch worktree /tmp/wt2-* (removed afterwards), tools/verify_seed.sh"
+m["confirmed_in"] = f"scratch worktree {wt} (removed afterwards), tools/verify_seed.sh"
 json.dump(m, open(os.path.join(dst, "meta.json"), "w"), indent=1)
 print("recorded", dst)
